@@ -138,6 +138,23 @@ def run(ck, prog, ctx):
                         comp = {tuple(e[1] for e in a[3] if e[0] == "f") for a in Prov(prog, bind_closures=False).of_local(cb, 0) if a[0] == "param" and a[2] == 2}
                         ck.ob("SELECT", name + "/key", comp == {("1",)}, "path_to_term picks the candidate with the smallest distance sum (component %s of (ancestor, sum))" % sorted(comp), where=cb.where())
 
+    # ---- the path ends at `other`: where `other`'s id is appended under a test of what the path already ends with, that test looks at the LAST
+    # element of the path (a test of the first one appends `other` a second time whenever the way up already ends there)
+    pt_ = prog.body(T + "path_to_term")
+    if pt_ is not None:
+        pvp_ = Prov(prog, inline=False)
+        for fb_ in prog.family(pt_):
+            for pbi_, ptm_ in fb_.calls():
+                if ptm_.callee.method != "push" or len(ptm_.args) != 2:
+                    continue
+                ends_ = set()
+                for gbi_, gt_ in fb_.calls():
+                    if gt_.callee.method in ("eq", "ne") and len(gt_.args) == 2 and any(fb_.edge_dominates((sb_, tg_), pbi_) for sb_ in sorted(fb_.reach) if fb_.blocks[sb_].term.k == "switch" and any(a_[0] == "call" and a_[3] == fb_.id and a_[4] == gbi_ for a_ in pvp_.of_operand(fb_, fb_.blocks[sb_].term.discr)) for tg_ in fb_.blocks[sb_].term.successors()):
+                        for a_ in gt_.args:
+                            ends_ |= {x_[1].rsplit("::", 1)[-1] for x_ in pvp_.of_operand(fb_, a_) if x_[0] == "call" and x_[3] == fb_.id and x_[1].rsplit("::", 1)[-1] in ("last", "first", "get", "index", "last_mut", "first_mut")}
+                if ends_:
+                    ck.ob("ROLE", "path_to_term/appends-behind-last", ends_ == {"last"}, "path_to_term appends `other` under a test of the path's %s element" % ("last" if ends_ == {"last"} else "/".join(sorted(ends_)) + " (expected: last)"), where=fb_.where(ptm_.line))
+
     # ---- base cases of distance_to_ancestor
     da = prog.body(T + "distance_to_ancestor")
     if ck.anchor("FIELD", "HpoTerm::distance_to_ancestor", da):
